@@ -31,7 +31,9 @@ func allBytePairs(fn func(b []byte)) {
 
 // ---- C02 DataMatrix -----------------------------------------------------------------
 
-var dmClass = []string{"0", "9", "A", "\x00", "\x7f", "\x80", "\xff"}
+var dmClass = []string{"0", "9", "A", "\x00", "\x7f", "\x80", "\xff",
+	// non-ASCII decimal digits (Arabic-Indic, fullwidth): bytes, not digits, for the digit-pair rule
+	"٣", "３"}
 
 // dmByCodewords builds contents whose reference encodation has exactly n codewords, three ways.
 func dmByCodewords(n int) [][]byte {
@@ -107,6 +109,7 @@ func enumDM(c *core.Ctx, classLen int, allLengths bool) {
 }
 
 func c02Body(c *core.Ctx) {
+	foreignWarmup(c, "dm")
 	defer seqPairs(c, "dm")
 	cl := pick(c, 6, 7)
 	enumDM(c, cl, c.Thorough())
@@ -252,6 +255,7 @@ func farQR(c *core.Ctx, levels []int) {
 }
 
 func c01Body(c *core.Ctx) {
+	foreignWarmup(c, "qr")
 	defer seqPairs(c, "qr")
 	cl := pick(c, 3, 4)
 	enumQR(c, cl, true, c.Thorough())
@@ -418,6 +422,7 @@ func enumAztec(c *core.Ctx, classLen int, thorough bool) {
 }
 
 func c03Body(c *core.Ctx) {
+	foreignWarmup(c, "az")
 	defer seqPairs(c, "az")
 	cl := pick(c, 4, 5)
 	enumAztec(c, cl, c.Thorough())
@@ -433,7 +438,7 @@ func c03Body(c *core.Ctx) {
 
 // ---- C04 PDF417 ------------------------------------------------------------------------
 
-var pdfClass = []string{"A", "a", "1", "&", ";", "\n", ",", " ", "\x80", "٣"}
+var pdfClass = []string{"A", "a", "1", "&", ";", "\n", ",", " ", "\x80", "٣", "３"}
 var pdfMacro = []string{"ABCDE", "abcde", "12&45", "1;;;;", "1;;;;;", "ab;cd", "\x80", "\x81\x82", "\x83\x84\x85\x86\x87\x88", "\x89\x8a\x8b\x8c\x8d\x8e\x8f",
 	"123456789012", "1234567890123", strings.Repeat("7", 44), strings.Repeat("8", 45), "Z",
 	strings.Repeat("٣", 6), strings.Repeat("３", 13), "\x7f",
@@ -527,6 +532,7 @@ func enumPDF(c *core.Ctx, classLen, macroLen int, thorough bool) {
 }
 
 func c04Body(c *core.Ctx) {
+	foreignWarmup(c, "pdf")
 	defer seqPairs(c, "pdf")
 	cl, ml := pick(c, 5, 7), pick(c, 4, 5)
 	enumPDF(c, cl, ml, c.Thorough())
